@@ -232,10 +232,14 @@ fn dec_common<T>(
     verif_reset(None);
     match result {
         Ok(v) => {
-            if catch_unwind(AssertUnwindSafe(|| post(&v))).is_err() {
-                return Ok("panic post".to_string());
+            // a panic while cloning / comparing / formatting / querying / re-encoding the returned value is
+            // reported as a suffix: the decode verdict itself stays visible to the properties that are about it
+            let post_panicked = catch_unwind(AssertUnwindSafe(|| post(&v))).is_err();
+            match catch_unwind(AssertUnwindSafe(|| print(&v))) {
+                Ok(text) if post_panicked => Ok(format!("ok {} cost={} post-panic", text, cost)),
+                Ok(text) => Ok(format!("ok {} cost={}", text, cost)),
+                Err(_) => Ok("panic post".to_string()),
             }
-            Ok(format!("ok {} cost={}", print(&v), cost))
         }
         Err(e) => Ok(format!("err {} cost={}", decode_error_text(&e), cost)),
     }
